@@ -101,7 +101,10 @@ func (t *Tree) feedLeaf(leaf validator, jsonLex lexeme.LexEvent, indexOfLeaf int
 	if done { // validation of node completed
 		parent := leaf.parent()
 		leaf.setParent(nil) // remove the pointer to simplify garbage collection in the future
-		if parent == nil {
+		if parent == nil || t.hasLeaf(parent) {
+			// No parent, or another alternative of the same position ("or" rule,
+			// nullable type reference) has already stepped back to this parent:
+			// it must receive the following lexemes only once.
 			delete(t.leaves, indexOfLeaf)
 		} else {
 			t.leaves[indexOfLeaf] = parent // step back to parent
@@ -121,6 +124,15 @@ func (t *Tree) feedLeaf(leaf validator, jsonLex lexeme.LexEvent, indexOfLeaf int
 	}
 
 	return nil
+}
+
+func (t *Tree) hasLeaf(v validator) bool {
+	for _, leaf := range t.leaves {
+		if leaf == v {
+			return true
+		}
+	}
+	return false
 }
 
 func (t *Tree) addLeaf(v validator) {
